@@ -49,6 +49,7 @@ def instances(tier):
     )]
     for pq in ([(0, 50), (50, 100)] if tier == "quick" else [(0, 30), (30, 50), (50, 100), (0, 100)]):
         out.append({"name": f"rotdpp_monotone_{pq[0]}_{pq[1]}", "func": "run_rotdpp_monotone", "kwargs": {"p": pq[0], "q": pq[1]}})
+    out.append({"name": "rotdpp_extremes_are_azimuth_extremes", "func": "run_rotdpp_bounds", "kwargs": {}})
     out.append({"name": "azimuthal_is_stack", "func": "run_azimuthal_stack", "kwargs": {}})
     for m in ("single_azimuth", "azimuthal", "rotdpp"):
         out.append({"name": f"process_orient_process_{m}", "func": "run_process_orient_process", "kwargs": {"method": m}})
@@ -78,6 +79,9 @@ def wit(s, extra):
         val = concretiser(m)
         d = {"kind": "orient", "ns": [val(x) for x in s["ns"]], "ew": [val(x) for x in s["ew"]], "vt": [val(x) for x in s["vt"]]}
         d.update({k: (val(v) if isinstance(v, Sym) else v) for k, v in extra.items()})
+        tap = Ctx.cur.notes.get("tukey", {}) if Ctx.cur is not None else {}
+        d["taper"] = {str(k[0]): [val(x) for x in v] for k, v in tap.items()}
+        d["taper"].update({f"{k[0]}:{float(k[1])}": [val(x) for x in v] for k, v in tap.items()})
         return d
     return w
 
@@ -343,6 +347,34 @@ def run_rotdpp_monotone(rep, tier, p, q):
                   key="rotdpp-not-monotone", timeout_ms=30000)
 
 
+def run_rotdpp_bounds(rep, tier):
+    """RotD100 / RotD0 are, cell by cell, the largest / smallest of the single-azimuth HVSRs of the same azimuths (the percentile is
+    taken over the HVSR-defining smoothed spectra, not before smoothing)."""
+    Ld = LD()
+    P, S = Ld["processing"], Ld["settings"]
+    fcs, bws = C01.CFG[4]
+    azs = [0.0, 60.0]
+    kw = lambda: PP.settings_kwargs("linear_rectangular", bws["linear_rectangular"], fcs, width=0.3)
+
+    def run(ctx):
+        s = PP.samples("r", 3, ctx)
+        mk = lambda: PP.mkrec(Ld, ctx, "r", 3, DT, comps=s)
+        az = C01.process(P, [mk()], S.HvsrAzimuthalProcessingSettings(azimuths_in_degrees=list(azs), **kw()))
+        per_az = [list(np.asarray(h.amplitude, dtype=object)[0]) for h in az.hvsrs]
+        r = {pp: list(np.asarray(C01.process(P, [mk()], S.HvsrTraditionalRotDppProcessingSettings(azimuths_in_degrees=list(azs), ppth_percentile_for_rotdpp_computation=pp, **kw())).amplitude,
+                                 dtype=object)[0]) for pp in (100.0, 0.0)}
+        return s, per_az, r
+
+    for ctx, (s, per_az, r) in rep.explore(run, max_paths=200, timeout_ms=6000):
+        bad = []
+        for j in range(len(per_az[0])):
+            a0, a1 = Sym.lift(per_az[0][j]), Sym.lift(per_az[1][j])
+            hi, lo = Sym.lift(r[100.0][j]), Sym.lift(r[0.0][j])
+            bad += [z3.And(hi != a0, hi != a1), hi < a0, hi < a1, z3.And(lo != a0, lo != a1), lo > a0, lo > a1]
+        rep.prove(ctx, "RotD100 / RotD0 equal the largest / smallest single-azimuth HVSR in every cell (azimuths 0 and 60)", bad,
+                  witness=wit(s, {"what": "rotdpp-bounds", "az0": azs[0], "az1": azs[1]}), key="rotdpp-not-azimuth-extreme", timeout_ms=30000, real=True)
+
+
 def run_process_orient_process(rep, tier, method, op="orient"):
     """processing a recording, changing it in place through a public method (re-orienting; detrending; tapering) and processing
     it again gives the result of processing a freshly built recording that holds the changed samples (nothing of the first run
@@ -452,13 +484,21 @@ def replay(spec):
                     "detail": f"{spec['method']}: process / {spec.get('op', 'orient')} in place ({spec['target']}) / process gives {again.tolist()}, a fresh recording with the same samples {ref.tolist()}"[:400]}
         finally:
             C01._restore(P, T, saved)
-    if what in ("periodic", "rotdpp"):
-        sp = {"nfft": 4, "taper": {}, "records": [{c: spec[c] for c in ("ns", "ew", "vt")}]}
+    if what in ("periodic", "rotdpp", "rotdpp-bounds"):
+        sp = {"nfft": 4, "taper": spec.get("taper", {}) if what == "rotdpp-bounds" else {}, "records": [{c: spec[c] for c in ("ns", "ew", "vt")}]}
         hv, P, T, saved = C01._patched(sp)
         try:
             fcs, bws = C01.CFG[4]
             kw = dict(window_type_and_width=["tukey", 0.3], smoothing=dict(operator="linear_rectangular", bandwidth=bws["linear_rectangular"], center_frequencies_in_hz=list(fcs)))
             run = lambda st: np.asarray(hv.process([mkr(0.0)], st).amplitude, dtype=float)
+            if what == "rotdpp-bounds":
+                azl = [spec["az0"], spec["az1"]]
+                az = hv.process([mkr(0.0)], hv.HvsrAzimuthalProcessingSettings(azimuths_in_degrees=azl, **kw))
+                per = np.array([np.asarray(h.amplitude, dtype=float)[0] for h in az.hvsrs])
+                rr = {pp: run(hv.HvsrTraditionalRotDppProcessingSettings(azimuths_in_degrees=azl, ppth_percentile_for_rotdpp_computation=pp, **kw))[0] for pp in (100.0, 0.0)}
+                ok = np.allclose(rr[100.0], per.max(axis=0), rtol=1e-9, equal_nan=True) and np.allclose(rr[0.0], per.min(axis=0), rtol=1e-9, equal_nan=True)
+                return {"reproduced": not ok, "key": "rotdpp-not-azimuth-extreme",
+                        "detail": f"RotD100 {rr[100.0].tolist()} / RotD0 {rr[0.0].tolist()} vs per-azimuth HVSR max {per.max(axis=0).tolist()} / min {per.min(axis=0).tolist()}"[:400]}
             if what == "periodic":
                 a0 = run(hv.HvsrTraditionalSingleAzimuthProcessingSettings(azimuth_in_degrees=spec["a"], **kw))
                 a1 = run(hv.HvsrTraditionalSingleAzimuthProcessingSettings(azimuth_in_degrees=spec["a"] + 180, **kw))
